@@ -231,6 +231,7 @@ def main(argv: list[str] | None = None) -> int:
         "counters": dict(sorted(agg["counters"].items())),
         "observed": {k: {"distinct": len(v), "values": sorted(v)[:40]} for k, v in sorted(agg["sets"].items())},
         "shards": len(shards),
+        "shard_wall_s": agg["shard_wall"],
         "verdict": "violated" if unlisted else ("inconclusive" if inconclusive else "held on what was observed"),
         "inconclusive_reasons": inconclusive,
         "known_findings_seen": sorted(listed),
